@@ -136,7 +136,9 @@ func (s *session) delete() error {
 	deletes = append(deletes, &proto.DeleteRequest{
 		Key: sessionKey,
 	})
-	_, err = s.sm.leaderController.WriteBlock(context.Background(), &proto.WriteRequest{
+	// This is a request of the server itself (it involves the internal keys of the session): it is
+	// not subject to the validation of the requests coming from clients
+	request := &proto.WriteRequest{
 		Shard:   &s.shardId,
 		Puts:    nil,
 		Deletes: deletes,
@@ -147,7 +149,8 @@ func (s *session) delete() error {
 				EndExclusive:   sessionKey + "//",
 			},
 		},
-	})
+	}
+	_, err = s.sm.leaderController.writeBlock(context.Background(), func(_ int64) *proto.WriteRequest { return request })
 	s.log.Info("Session cleanup complete",
 		slog.Int("keys-deleted", len(deletes)))
 	return err
